@@ -19,7 +19,8 @@ import sys
 
 from . import impl, paths
 
-DT = {"int": "int64", "flt": "float64", "str": "str", "bool": "bool", "time": "datetime64[ns]"}
+DT = {"int": "int64", "flt": "float64", "str": "str", "bool": "bool", "time": "datetime64[ns]", "i32": "int32", "f32": "float32"}
+CATS = ["x", "y", "z", "tracked_x", ""]       # the one set of categories of every categorical column / update
 DAY = 86_400_000_000_000
 T0 = 1_577_836_800_000_000_000          # 2020-01-01 in ns
 PHASES = ["time_step__prepare", "time_step", "time_step__cleanup", "collect_metrics"]
@@ -113,17 +114,34 @@ def mk_array(tokens, dtype):
     if dtype == "time":
         return pd.Series(np.array([np.datetime64("NaT") if v is None else np.datetime64(v.value, "ns") for v in vals],
                                   dtype="datetime64[ns]"))
-    if dtype == "flt":
-        return pd.Series([float("nan") if v is None else v for v in vals], dtype="float64")
+    if dtype in ("flt", "f32"):
+        return pd.Series([float("nan") if v is None else v for v in vals], dtype=DT[dtype])
+    if dtype == "cat":
+        return pd.Series(vals, dtype=pd.CategoricalDtype(CATS))
     if dtype == "obj":
         return pd.Series([float("nan") if v is None else v for v in vals], dtype=object)
     return pd.Series(vals, dtype=DT[dtype])
 
 
-def mk_series(tokens, dtype, rows, name=None):
+def mk_index(rows, kind="int64"):
+    """the index kinds a component may hand over: an int64 Index, a RangeIndex (when the labels are consecutive),
+    an int32 Index, a default (object) empty Index"""
     import pandas as pd
+    rows = list(rows)
+    if kind == "range" and rows and rows == list(range(rows[0], rows[0] + len(rows))):
+        return pd.RangeIndex(rows[0], rows[0] + len(rows))
+    if kind == "range" and not rows:
+        return pd.RangeIndex(0)
+    if kind == "int32":
+        return pd.Index(rows, dtype="int32")
+    if kind == "obj-empty" and not rows:
+        return pd.Index([])
+    return pd.Index(rows, dtype="int64")
+
+
+def mk_series(tokens, dtype, rows, name=None, ikind="int64"):
     s = mk_array(tokens, dtype)
-    s.index = pd.Index(list(rows), dtype="int64")
+    s.index = mk_index(rows, ikind)
     s.name = name
     return s
 
@@ -140,6 +158,12 @@ def canon_dtype(s) -> str:
         return "bool"
     if ds == "datetime64[ns]":
         return "time"
+    if ds == "int32":
+        return "i32"
+    if ds == "float32":
+        return "f32"
+    if isinstance(d, pd.CategoricalDtype):
+        return "cat" if list(d.categories) == CATS else ds
     if isinstance(d, pd.StringDtype):
         return "str"
     if ds == "object":
@@ -270,18 +294,22 @@ def pred_eval(p, t: dict, r: int) -> bool:
 
 # --------------------------------------------------------------------------------------- update specs
 def build_update(spec):
-    """the pandas object a component passes to PopulationView.update"""
+    """the object a component passes to PopulationView.update (`ikind`: index kind, `xkind`: what non-pandas object)"""
+    import numpy as np
     import pandas as pd
     if spec["form"] == "X":
-        return {c[0]: [untok(t) for t in c[2]] for c in spec["cols"]}          # a dict: not a pandas object
-    rows = spec["rows"]
+        cols = {c[0]: [untok(t) for t in c[2]] for c in spec["cols"]}
+        first = next(iter(cols.values()), [])
+        return {"dict": cols, "list": list(first), "tuple": tuple(first), "ndarray": np.array(first, dtype=object),
+                "none": None, "scalar": 3}[spec.get("xkind", "dict")]
+    rows, ik = spec["rows"], spec.get("ikind", "int64")
     if spec["form"] == "S":
         name, dt, toks = spec["cols"][0]
-        return mk_series(toks, dt, rows, name)
-    idx = pd.Index(list(rows), dtype="int64")
+        return mk_series(toks, dt, rows, name, ik)
+    idx = mk_index(rows, ik)
     data = {}
     for name, dt, toks in spec["cols"]:
-        data[name] = mk_series(toks, dt, rows, name)
+        data[name] = mk_series(toks, dt, rows, name, ik)
     return pd.DataFrame(data, index=idx) if data else pd.DataFrame(index=idx)
 
 
@@ -352,14 +380,31 @@ def run_script(case: dict) -> dict:
         mgr = state["sim"]._population
         return [bool(mgr.creating_initial_population), bool(mgr.adding_simulants)]
 
-    def do(action, comp=None):
+    def check_held(pos):
+        for h in held:
+            if h[3] is None and not h[1].equals(h[2]):
+                h[3] = pos
+
+    def do(action, comp=None, event=None):
+        try:
+            do_(action, comp, event)
+        finally:
+            check_held(len(log) - 1)
+
+    def do_(action, comp=None, event=None):
         kind = action["a"]
+        if kind in ("upd", "get") and action["view"] not in views or kind == "sub" and action["parent"] not in views:
+            log.append({"t": "skip", "why": "view does not exist (shrunk case)"})
+            return
         if kind == "upd":
             ent = {"t": "upd", "spec": {k: action[k] for k in ("view", "form", "rows", "cols")},
-                   "caught": bool(action.get("catch", True)), "comp": comp}
+                   "caught": bool(action.get("catch", True)), "comp": comp,
+                   "forms": [action.get("ikind", "int64"), action.get("xkind", "dict") if action["form"] == "X" else "-"]}
             log.append(ent)
             try:
                 u = build_update(action)
+                if hasattr(u, "index") and hasattr(u.index, "dtype"):
+                    ent["forms"][0] = f"{type(u.index).__name__}:{u.index.dtype}"
                 views[action["view"]].update(u)
                 ent["out"] = "ok"
                 if action.get("mutate"):
@@ -371,15 +416,27 @@ def run_script(case: dict) -> dict:
                     raise
             ent["table"], ent["flags"] = dump(), flags()
         elif kind == "get":
-            ent = {"t": "get", "view": action["view"], "idx": action["idx"], "q": action["q"], "comp": comp}
+            if action["idx"] == "event":                           # the very index object the framework handed to the listener
+                index = event.index if event is not None else mk_index([])
+            else:
+                index = mk_index(action["idx"], action.get("ikind", "int64"))
+            ent = {"t": "get", "view": action["view"], "idx": [int(x) for x in index.tolist()], "q": action["q"], "comp": comp,
+                   "forms": [("event-index:" if action["idx"] == "event" else "") + f"{type(index).__name__}:{index.dtype}",
+                             "no-query-arg" if action["q"] == ["T"] and action.get("noq") else "query-arg"]}
             log.append(ent)
             try:
-                got = views[action["view"]].get(pd.Index(list(action["idx"]), dtype="int64"), pred_query(action["q"]))
+                if action["q"] == ["T"] and action.get("noq"):
+                    got = views[action["view"]].get(index)
+                elif action.get("kw"):
+                    got = views[action["view"]].get(index=index, query=pred_query(action["q"]))
+                else:
+                    got = views[action["view"]].get(index, pred_query(action["q"]))
                 ent["out"] = "ok"
                 ent["frame"] = canon_frame(got) if views[action["view"]]._columns else sort_cols(canon_frame(got))
                 if action.get("mutate"):
                     _mutate(got)
-                held.append((len(log) - 1, got, canon_frame(got)))
+                    ent["mutated"] = True
+                held.append([len(log) - 1, got, got.copy(deep=True), None])
             except Exception as e:  # noqa: BLE001
                 ent["out"] = "err:" + type(e).__name__
             ent["table"], ent["flags"] = dump(), flags()
@@ -390,6 +447,37 @@ def run_script(case: dict) -> dict:
                 arg = action["cols"][0] if action.get("as_str") else list(action["cols"])
                 views[action["id"]] = views[action["parent"]].subview(arg)
                 ent["out"] = "ok"
+            except Exception as e:  # noqa: BLE001
+                ent["out"] = "err:" + type(e).__name__
+            ent["table"], ent["flags"] = dump(), flags()
+        elif kind == "view":                                       # a view requested after setup (allowed in population_creation)
+            ent = {"t": "view", "id": action["id"], "cols": action["cols"], "q": action["q"], "comp": comp}
+            log.append(ent)
+            try:
+                arg = action["cols"][0] if action.get("as_str") else list(action["cols"])
+                views[action["id"]] = comps[comp or case["comps"][0]["name"]].pop_iface.get_view(arg, pred_query(action["q"]))
+                ent["out"] = "ok"
+            except Exception as e:  # noqa: BLE001
+                ent["out"] = "err:" + type(e).__name__
+        elif kind == "pop":                                        # SimulationContext / PopulationManager.get_population
+            sim = state["sim"]
+            untracked = bool(action.get("untracked", True))
+            ent = {"t": "pop", "untracked": untracked, "via": action.get("via", "sim"), "comp": comp}
+            log.append(ent)
+            try:
+                if action.get("via") == "default":
+                    got = sim.get_population()
+                    ent["untracked"] = True                        # the engine's default
+                elif action.get("via") == "manager":
+                    got = sim._population.get_population(untracked)
+                else:
+                    got = sim.get_population(untracked)
+                ent["out"] = "ok"
+                ent["frame"] = sort_cols(canon_frame(got))
+                if action.get("mutate"):
+                    _mutate(got)
+                    ent["mutated"] = True
+                held.append([len(log) - 1, got, got.copy(deep=True), None])
             except Exception as e:  # noqa: BLE001
                 ent["out"] = "err:" + type(e).__name__
             ent["table"], ent["flags"] = dump(), flags()
@@ -426,6 +514,7 @@ def run_script(case: dict) -> dict:
 
         def setup(self, builder):
             self.creator = builder.population.get_simulant_creator()
+            self.pop_iface = builder.population
             self.clock = builder.time.clock()
             made = [c for c, _ in self.spec["cols"]]
             req = list(self.spec.get("requires", []))
@@ -439,7 +528,13 @@ def run_script(case: dict) -> dict:
             for name in self.spec.get("ledgers", []):               # plain named objects, bound method, no columns
                 builder.population.initializes_simulants(Ledger(name).initialize)
             for v in self.spec.get("views", []):
-                views[v["id"]] = builder.population.get_view(list(v["cols"]), pred_query(v["q"]))
+                if v.get("auto"):
+                    continue                                        # the Component's own population_view (ProbeC)
+                cols = v["cols"][0] if v.get("as_str") and len(v["cols"]) == 1 else list(v["cols"])
+                if v["q"] == ["T"] and v.get("noq"):
+                    views[v["id"]] = builder.population.get_view(cols)
+                else:
+                    views[v["id"]] = builder.population.get_view(cols, pred_query(v["q"]))
             for ph in PHASES:
                 builder.event.register_listener(ph, self._listener(ph), priority=self.spec.get("priority", 5))
 
@@ -452,7 +547,7 @@ def run_script(case: dict) -> dict:
                             "time": tok(event.time) if not isinstance(event.time, (int, float)) else f"i{int(event.time)}",
                             "step_size": _dur(event.step_size), "clock": _time(self.clock())})
                 for a in acts:
-                    do(a, self.name)
+                    do(a, self.name, event)
             return on_event
 
         def initialize(self, data):
@@ -478,6 +573,25 @@ def run_script(case: dict) -> dict:
 
         def on_initialize_simulants(self, pop_data):
             self.initialize(pop_data)
+
+        # the view a Component gets without asking: get_view(columns_created + columns_required, population_view_query)
+        @property
+        def columns_required(self):
+            a = self._auto()
+            return None if a is None else a.get("required")
+
+        @property
+        def population_view_query(self):
+            a = self._auto()
+            return None if a is None or a["q"] == ["T"] else pred_query(a["q"])
+
+        def _auto(self):
+            return next((v for v in self.spec.get("views", []) if v.get("auto")), None)
+
+        def on_post_setup(self, event):
+            a = self._auto()
+            if a is not None:
+                views[a["id"]] = self.population_view
 
     class Ledger:
         """not a Component: a named object whose bound method is an initializer without created columns"""
@@ -561,7 +675,8 @@ def run_script(case: dict) -> dict:
                 do(a, None)
             except Exception as e:  # noqa: BLE001 - an uncaught action outside a creation
                 log.append({"t": "raised", "exc": type(e).__name__})
-    out["held_changed"] = [i for i, live, snap in held if canon_frame(live) != snap]
+    check_held(len(log))
+    out["held_changed"] = [[h[0], h[3]] for h in held if h[3] is not None]      # [read at log pos, first seen changed after log pos]
     out["final"] = dump()
     out["hashseed"] = os.environ.get("PYTHONHASHSEED")
     return out
@@ -597,6 +712,9 @@ def script_lines(case: dict, obs: dict) -> tuple[list[str], list[tuple[int, str]
         elif t == "get":
             lines.append(f"get {e['view']} {','.join(map(str, e['idx'])) or '-'} {pred_rpn(e['q'])}")
             expect.append((len(lines) - 1, i, "frame"))
+        elif t == "view":
+            if e["out"] == "ok":
+                lines.append(f"view {e['id']} {','.join(e['cols']) or '-'} {pred_rpn(e['q'])}")
         elif t == "sub":
             lines.append(f"sub {e['id']} {e['parent']} {','.join(e['cols']) or '-'}")
             expect.append((len(lines) - 1, i, "out"))
@@ -657,6 +775,9 @@ def _explicit(case, obs, vid) -> bool:
         for v in c.get("views", []):
             if v["id"] == vid:
                 return bool(v["cols"])
+    for e in obs["log"]:
+        if e["t"] == "view" and e["id"] == vid:
+            return bool(e["cols"])
     return True      # sub-views always have explicit columns
 
 
@@ -668,6 +789,8 @@ def view_defs(case, obs) -> dict:
         for v in c.get("views", []):
             d[v["id"]] = {"cols": list(v["cols"]), "q": v["q"]}
     for e in obs["log"]:
+        if e["t"] == "view" and e["out"] == "ok":
+            d[e["id"]] = {"cols": list(e["cols"]), "q": e["q"]}
         if e["t"] == "sub" and e["out"] == "ok" and e["parent"] in d:
             d[e["id"]] = {"cols": list(e["cols"]), "q": d[e["parent"]]["q"], "parent": e["parent"]}
     return d
@@ -757,7 +880,7 @@ class TableProp(Prop):
     driver = "C11"
     build_targets = ["VivModel.Model.Table", "VivModel.Model.Proto"]
     workers = 6
-    case_timeout = 120
+    case_timeout = 300
 
     def run_impl(self, case):
         return run_under_seeds(case, case.get("seeds") or [0])
@@ -812,6 +935,148 @@ class TableProp(Prop):
                 "final": obs.get("final")}
 
 
+def history_failures(case, obs) -> list:
+    """Independent of anything read back from the implementation except accepted / rejected: the table that the
+    HISTORY implies (rows from the creation requests of the case, cells from the values the case supplied in accepted
+    updates) is compared with the observed table after every step. Stops at the first accepted update whose dtype
+    differs from the column's (finding F22 is reported by its own clause)."""
+    vdefs = view_defs(case, obs)
+    rows, cols = None, {}            # cols: name -> [dtype, {row: token}]
+    depth = 0
+    out = []
+    for i, e in enumerate(obs["log"]):
+        t = e["t"]
+        if t == "create":
+            if rows is None:
+                rows = []
+            new = list(range(len(rows), len(rows) + e["k"]))
+            rows = rows + new
+            cols.setdefault("tracked", ["bool", {}])       # the population system itself marks new simulants as tracked
+            for r in new:
+                cols["tracked"][1][r] = "b1"
+            depth += 1
+        elif t == "endcreate":
+            depth = max(0, depth - 1)
+        elif t == "upd" and e.get("out") == "ok" and e["spec"]["form"] != "X":
+            sp = e["spec"]
+            vd = vdefs.get(sp["view"])
+            for name, dt, toks in sp["cols"]:
+                if name is None:
+                    vc = (vd["cols"] if vd and vd["cols"] else list(cols))
+                    if len(vc) != 1:
+                        return out
+                    name = vc[0]
+                if name not in cols:
+                    cols[name] = [dt, {}]
+                if dt != cols[name][0] and sp["rows"]:
+                    return out
+                for r, v in zip(sp["rows"], toks):
+                    cols[name][1][r] = v
+        if "table" not in e or e["table"] is None and rows is None:
+            continue
+        got = e["table"] or {"rows": [], "cols": []}
+        want_rows = rows or []
+        if got["rows"] != want_rows:
+            out.append({"sig": "table-differs-from-history", "msg": f"log {i} {t}: the index is {got['rows']}, the creation requests so far imply {want_rows}"})
+            return out
+        gc = {c[0]: c for c in got["cols"]}
+        if sorted(gc) != sorted(cols):
+            out.append({"sig": "table-differs-from-history", "msg": f"log {i} {t}: the columns are {sorted(gc)}, the accepted updates so far imply {sorted(cols)}"})
+            return out
+        for name, (dt, cells) in cols.items():
+            vals = gc[name][2]
+            for r, v in zip(got["rows"], vals):
+                w = cells.get(r, "n")
+                if not same_value(norm_tok(v), norm_tok(w)) and not (w == "n" and gc[name][1] == "bool" and v == "b1"):
+                    out.append({"sig": "table-differs-from-history",
+                                "msg": f"log {i} {t}: cell ({r},{name}) is {v}; the last accepted update that addressed it supplied {w}"})
+                    return out
+            unfilled = dt in ("int", "bool") and any(cells.get(r, "n") == "n" for r in got["rows"])   # (an aborted creation: no integer / boolean NaN)
+            if depth == 0 and gc[name][1] != dt and not (dt == "obj" and gc[name][1] == "str") and not unfilled:
+                out.append({"sig": "table-differs-from-history", "msg": f"log {i} {t}: column {name} is {gc[name][1]}; it was created as {dt}"})
+                return out
+    return out
+
+
+def population_failures(obs) -> list:
+    """frames returned by SimulationContext / PopulationManager.get_population are the whole table, or its tracked rows"""
+    out = []
+    for i, e, prev, cr in walk(obs):
+        if e["t"] != "pop" or e.get("out") != "ok":
+            if e["t"] == "pop":
+                out.append({"sig": "get-population-raised", "msg": f"log {i}: get_population({e['untracked']}) via {e['via']}: {e.get('out')}"})
+            continue
+        t = prev or {"rows": [], "cols": []}
+        if table_diff(t, e["table"] or {"rows": [], "cols": []}):
+            out.append({"sig": "read-changed-table", "msg": f"log {i} get_population: {table_diff(t, e['table'])}"})
+        want = t
+        if not e["untracked"] and col_of(t, "tracked") is not None:
+            keep = [k for k, r in enumerate(t["rows"]) if cell(t, r, "tracked") == "b1"]
+            want = {"rows": [t["rows"][k] for k in keep], "cols": [[c[0], c[1], [c[2][k] for k in keep]] for c in t["cols"]]}
+        d = table_diff(want, e["frame"])
+        if d:
+            out.append({"sig": "get-population-wrong", "msg": f"log {i}: get_population(untracked={e['untracked']}) via {e['via']}: {d} (expected vs returned)"})
+    return out
+
+
+def held_failures(obs) -> list:
+    return [{"sig": "held-frame-changed",
+             "msg": f"the frame handed out at log position {a} had changed after log position {b} ({obs['log'][b]['t'] if b < len(obs['log']) else 'end'}"
+                    f"{' ' + str(obs['log'][b].get('out')) if b < len(obs['log']) else ''})"} for a, b in obs.get("held_changed", [])[:3]]
+
+
+def form_tags(case, obs) -> list:
+    """which containers, dtypes, index kinds, call forms, handles, performers and moments the case exercised"""
+    t = []
+    owner = {v["id"]: c["name"] for c in case["comps"] for v in c.get("views", [])}
+    for c in case["comps"]:
+        t.append("registered:" + c.get("reg", "builder"))
+        for v in c.get("views", []):
+            if v.get("auto"):
+                t.append("view-form:component-auto" + ("-whole-table" if not v["cols"] else ""))
+            elif v.get("as_str"):
+                t.append("view-form:column-as-str")
+            elif v["q"] == ["T"] and v.get("noq"):
+                t.append("view-form:no-query-arg")
+        for _, d in c["cols"]:
+            t.append("column-dtype:" + d)
+    for i, e, prev, cr in walk(obs):
+        when = "outside" if cr is None and not e.get("comp") else "listener" if cr is None else \
+               ("initial-creation" if cr.get("before") is None else "birth")
+        if e["t"] == "upd":
+            sp = e["spec"]
+            f = e.get("forms", ["int64", "-"])
+            t.append("upd-index:" + f[0])
+            if sp["form"] == "X":
+                t.append("upd-object:" + f[1])
+            for c in sp["cols"]:
+                t.append("upd-dtype:" + c[1])
+            rows = sp.get("rows", [])
+            n = len(prev["rows"]) if prev else 0
+            if rows and len(rows) == n and sorted(rows) == list(range(n)):
+                t.append("upd-rows:full-" + ("sorted" if rows == sorted(rows) else "reversed" if rows == sorted(rows, reverse=True) else "permuted"))
+            if e.get("comp") and owner.get(sp["view"]) not in (None, e["comp"]):
+                t.append("upd-through-another-components-view:" + when)
+            if prev and any(cell(prev, r, "tracked") == "b0" for r in rows if r in prev["rows"]):
+                t.append("upd-addresses-untracked")
+        elif e["t"] == "get":
+            f = e.get("forms", ["int64", "query-arg"])
+            t += ["get-index:" + f[0], "get-form:" + f[1], "get-when:" + when]
+            if e.get("comp") and owner.get(e["view"]) not in (None, e["comp"]):
+                t.append("get-through-another-components-view")
+        elif e["t"] == "view":
+            t.append(f"view-requested:{when}:{e['out'].split(':')[0]}")
+        elif e["t"] == "sub" and cr is not None:
+            t.append("sub-view-requested:" + when)
+        elif e["t"] == "pop":
+            t.append(f"get_population:{e['via']}:{'all' if e['untracked'] else 'tracked'}:{when}")
+        elif e["t"] == "create" and cr is not None:
+            t.append("creation-inside-creation")
+    for a, b in obs.get("held_changed", []):
+        t.append("held-changed")
+    return t
+
+
 def _used_views(case) -> set:
     used = set()
 
@@ -854,8 +1119,12 @@ def value_tokens(dtype, rng, n, allow_null=True):
             out.append(f"i{rng.randint(-3, 12)}")
         elif dtype == "flt":
             out.append("n" if allow_null and rng.random() < 0.08 else ftok(rng.randint(-8, 40) / 4))
-        elif dtype == "str":
-            out.append("n" if allow_null and rng.random() < 0.05 else "s" + rng.choice(["x", "y", "z", "tracked_x", ""]))
+        elif dtype in ("str", "cat", "obj"):
+            out.append("n" if allow_null and rng.random() < 0.05 else "s" + rng.choice(CATS))
+        elif dtype == "i32":
+            out.append(f"i{rng.randint(-3, 12)}")
+        elif dtype == "f32":
+            out.append(ftok(rng.randint(-8, 40) / 4))
         elif dtype == "bool":
             out.append(rng.choice(["b0", "b1"]))
         elif dtype == "time":
@@ -875,7 +1144,7 @@ def random_pred(rng, cols, depth=0):
         return ["a", name, rng.choice(list(OPS)), rng.choice([f"i{rng.randint(-2, 10)}", ftok(rng.randint(-4, 20) / 2)])]
     if dt == "flt":
         return ["a", name, rng.choice(list(OPS)), rng.choice([f"i{rng.randint(-2, 10)}", ftok(rng.randint(-8, 40) / 4)])]
-    if dt == "str":
+    if dt in ("str", "cat"):
         return ["a", name, rng.choice(["eq", "ne"]), "s" + rng.choice(["x", "y", "z", "tracked_x"])]
     if dt == "bool":
         return ["a", name, rng.choice(["eq", "ne"]), rng.choice(["b0", "b1"])]
